@@ -243,3 +243,70 @@ Proof.
   specialize (IH size avail (consumed + h + b)).
   destruct (read_pages cur size avail (consumed + h + b) r). cbn in *. lia.
 Qed.
+
+(** *** OpenFile under SkipMagicBytes / OptimisticRead / ReadBufferSize *)
+Lemma tail_read_size_bounds : forall o rbs L, 8 <= tail_read_size o rbs L /\ (8 <= L -> tail_read_size o rbs L <= L).
+Proof.
+  intros. unfold tail_read_size. cbn zeta.
+  destruct (o && (8 <=? N.min rbs L)) eqn:E; [|lia].
+  apply andb_true_iff in E. destruct E as [_ E]. apply N.leb_le in E. lia.
+Qed.
+
+Theorem open_core_cfg_tail_stages : forall (M : Type) o rbs hk L (hdr tail : list byte) (d : N -> N -> option M),
+  open_core_cfg M false o rbs hk L hdr tail d = open_core M hk L hdr tail d.
+Proof.
+  intros. unfold open_core_cfg, open_core. cbn [negb andb].
+  destruct (L <? 4) eqn:E1; [reflexivity|].
+  destruct (negb (is_magic hdr)); [reflexivity|].
+  destruct (beqb hdr magic_pare && negb hk); [reflexivity|].
+  pose proof (tail_read_size_bounds o rbs L) as [B1 B2].
+  destruct (L <? 8) eqn:E2.
+  - replace (L <? tail_read_size o rbs L) with true by lia. reflexivity.
+  - replace (L <? tail_read_size o rbs L) with false by lia.
+    destruct (negb (is_magic (skipn 4 tail))); [reflexivity|].
+    destruct (le32 (firstn 4 tail) <=? tail_read_size o rbs L - 8) eqn:E3; cbn [negb andb]; [|reflexivity].
+    replace (L <? le32 (firstn 4 tail) + 8) with false by lia. reflexivity.
+Qed.
+
+Section OpenCfgProofs.
+  Variable M : Type.
+  Variable decode : list byte -> option M.
+
+  Theorem open_cfg_ok_valid_trailer : forall sm o rbs hk f m,
+    open_file_cfg M decode sm o rbs hk f = OpenOk m -> valid_trailer M decode f.
+  Proof.
+    intros sm o rbs hk f m H. unfold open_file_cfg, open_core_cfg in H.
+    destruct (negb sm && (flen f <? 4)); [discriminate|].
+    destruct (negb sm && negb (is_magic (slice f 0 4))); [discriminate|].
+    destruct (negb sm && (beqb (slice f 0 4) magic_pare && negb hk)); [discriminate|].
+    pose proof (tail_read_size_bounds o rbs (flen f)) as [B1 B2].
+    destruct (flen f <? tail_read_size o rbs (flen f)) eqn:E2; [discriminate|].
+    assert (H8 : 8 <= flen f) by lia.
+    rewrite tail_magic, !tail_length in H by exact H8.
+    destruct (negb (is_magic (slice f (flen f - 4) 4))) eqn:E3; [discriminate|].
+    destruct (negb (le32 (slice f (flen f - 8) 4) <=? tail_read_size o rbs (flen f) - 8) && (flen f <? le32 (slice f (flen f - 8) 4) + 8)) eqn:E4; [discriminate|].
+    destruct (decode (slice f (flen f - 8 - le32 (slice f (flen f - 8) 4)) (le32 (slice f (flen f - 8) 4)))) eqn:E5; [|discriminate].
+    unfold valid_trailer. split; [exact H8|]. split; [now apply negb_false_iff in E3|].
+    split; [lia|]. rewrite E5. discriminate.
+  Qed.
+
+  Theorem prefix_rejected_cfg : forall sm o rbs hk f p q,
+    f = p ++ q -> q <> [] ->
+    (exists e, open_file_cfg M decode sm o rbs hk p = OpenErr e) \/
+    (exists m', open_file_cfg M decode sm o rbs hk p = OpenOk m' /\ valid_trailer M decode p /\
+       (forall rs, (exists off len, In (off, len) rs /\ 0 < len /\ flen p < off + len) -> read_all p rs = None) /\
+       (forall off len, off + len <= flen p -> read_range p off len = RdOk (slice f off len))).
+  Proof.
+    intros sm o rbs hk f p q Hf Hq. destruct (open_file_cfg M decode sm o rbs hk p) as [e|m'] eqn:E.
+    - left. exists e. reflexivity.
+    - right. exists m'. split; [reflexivity|]. split; [eapply open_cfg_ok_valid_trailer; eauto|].
+      split; [apply read_all_beyond|]. intros. subst f. apply read_range_inside. assumption.
+  Qed.
+
+  Corollary prefix_without_trailer_rejected_cfg : forall sm o rbs hk p,
+    ~ valid_trailer M decode p -> exists e, open_file_cfg M decode sm o rbs hk p = OpenErr e.
+  Proof.
+    intros sm o rbs hk p H. destruct (open_file_cfg M decode sm o rbs hk p) as [e|m'] eqn:E; [exists e; reflexivity|].
+    exfalso. apply H. eapply open_cfg_ok_valid_trailer; eauto.
+  Qed.
+End OpenCfgProofs.
